@@ -574,3 +574,47 @@ Section Truthful.
         split; [exact D1|]. split; [exact D2|]. split; [exact D3|exact I].
   Qed.
 End Truthful.
+
+(* ---- a concrete instance: the premises of write_file_truthful are satisfiable together ---- *)
+Definition ex_crc (_ : str) : N := 7%N.
+Definition ex_dec_ok (_ : str) : bool := true.
+Definition ex_decompress (_ : comp) (x : str) : option str := Some x.
+Definition ex_compress (_ : comp) (x : str) : str := x.
+Definition ex_jenc (_ : metaJ) : str := [1; 2; 3]%N.
+Definition ex_filters (rows : list str) : filters := (Some [9%N; N.of_nat (length rows)], None, Some []).
+Definition ex_entries (r : str) : entry3 := ([r], [], [r; r]).
+Definition ex_rows1 : list str := [[1; 2]; []; [3]]%N.
+Definition ex_rows2 : list str := [[7]]%N.
+(* a source file with one block, whose block is then copied verbatim into a second file *)
+Definition ex_src := write_file ex_crc ex_jenc ex_compress ex_filters ex_entries CSnappy [WBuild ex_rows2].
+Definition ex_src_block : blockJ := hd (mkblock 0 0 (built_desc ex_crc ex_compress ex_filters ex_entries CSnappy ex_rows2)) (m_blocks (snd ex_src)).
+Definition ex_acts : list waction :=
+  [ WBuild ex_rows1;
+    WCopy ex_src_block (slice (fst ex_src) (rdo ex_src_block) (rds ex_src_block))
+          (slice (fst ex_src) (bfo ex_src_block) (bfs ex_src_block)) ex_rows2 ].
+Definition ex_out := write_file ex_crc ex_jenc ex_compress ex_filters ex_entries CZstd ex_acts.
+Definition ex_jdec (_ : str) : option metaJ := Some (snd ex_out).
+
+Lemma c17_example :
+  (forall s, (ex_crc s < 4294967296)%N) /\ (forall x, ex_compress CNone x = x) /\
+  (forall k x, k <> CNone -> k <> COther -> ex_decompress k (ex_compress k x) = Some x) /\
+  Forall (action_ok ex_crc ex_dec_ok ex_decompress ex_filters ex_entries CZstd) ex_acts /\
+  filters_ok ex_dec_ok (ex_filters (flat_map rows_of_action ex_acts)) /\
+  lenZ (fst ex_out) <= Max64 /\ lenZ (ex_jenc (snd ex_out)) < 4294967296 /\ ex_jdec (ex_jenc (snd ex_out)) = Some (snd ex_out) /\
+  snd (read_metadata ex_crc ex_dec_ok ex_jdec (fst ex_out)) = Some (snd ex_out, lenZ (fst ex_out), ex_filters (flat_map rows_of_action ex_acts)) /\
+  length (m_blocks (snd ex_out)) = 2%nat.
+Proof.
+  split; [intro; reflexivity|]. split; [reflexivity|]. split; [reflexivity|].
+  split.
+  { constructor; [|constructor; [|constructor]].
+    - cbn. repeat split; reflexivity.
+    - cbn [action_ok]. split; [vm_compute; reflexivity|].
+      exists (ex_filters ex_rows2). unfold content_ok.
+      split; [intros _; vm_compute; reflexivity|].
+      split; [vm_compute; reflexivity|]. split; [vm_compute; reflexivity|]. split; [vm_compute; reflexivity|].
+      split; [vm_compute; reflexivity|]. split; [vm_compute; reflexivity|].
+      cbn. repeat split; reflexivity. }
+  split; [cbn; repeat split; reflexivity|].
+  split; [vm_compute; discriminate|]. split; [vm_compute; reflexivity|]. split; [reflexivity|].
+  split; vm_compute; reflexivity.
+Qed.
